@@ -94,6 +94,9 @@ def kwarg(call: ast.Call, name: str) -> Optional[ast.expr]:
     for k in call.keywords:
         if k.arg == name:
             return k.value
+    moved = getattr(call, "_kwmoved", None)  # keywords normalised into positional arguments (Program._normalise_call_keywords)
+    if moved and name in moved:
+        return moved[name]
     return None
 
 
